@@ -1,16 +1,25 @@
-"""C18 Joint counts and mutual information (structural clauses)."""
-import ast
+"""C18 Joint counts and mutual information (structural clauses).
 
-from ..core import (AnalysisIncomplete, call_name, const_value, kwarg,
-                    names_loaded, params, target_names, u, walk_expr,
-                    walk_local)
+The constructs are located by ROLE (positional parameters, "the array that
+is returned", "the store into it", "the call to the kernel", reaching
+definitions, dominating guards) and compared after expansion of temporaries
+(FuncInfo.expand) and canonicalisation, so that renames, named temporaries,
+mirrored comparisons, De Morgan duals, branch inversion and early
+return/continue do not matter.  A recognised construct with wrong content is
+a VIOLATION; an implementation the rule cannot see through is
+ANALYSIS-INCOMPLETE (ck.missing / classify 'far').
+"""
+import ast
+import copy
+
+from ..cfg import Assume
+from ..core import call_name, const_value, kwarg, params, u, walk_local
 from ..cykernel import (check_bounds, check_prange,
                         check_zero_before_accumulate)
-from ..patterns import (Cmp, assigns_to, calls_in, check_masked_ufuncs,
+from ..match import canon, classify, match
+from ..patterns import (Cmp, calls_in, check_masked_ufuncs,
                         check_no_arg_mutation, conjuncts, finfo, returns_of,
                         subscript_stores)
-
-from ..match import C, CS
 
 LI = 'enspara/info_theory/libinfo.pyx'
 MI = 'enspara/info_theory/mutual_info.py'
@@ -20,21 +29,277 @@ EXPLANATION = (
     'Static decision of: (D1) two-sided bounds of every data-dependent index '
     'of the boundscheck(False)/wraparound(False) counting kernel (guards '
     'a.max() < n and a.min() >= 0 for both inputs; loop ranges vs extents; '
-    'accumulator shape); (D2) prange ownership jc[a_row, ...] and a '
-    'zero-initialised accumulator; (D3) axis roles in mutual_information '
-    '(marginal over the last axis indexes the first state loop, second-last '
-    'the second); (D4) channel-capacity grid built with indexing=\'ij\' and '
-    'fmin of the two state-count vectors; (D5) every masked ufunc has an '
-    'initialised out=; (D6) argument order X,Y,n_x,n_y into the kernel, dtype '
-    'harmonisation casts the narrower side up, pooled counts accumulate into a '
-    'fresh array; no argument mutation. The information-theoretic identities '
-    'themselves are not decided.')
+    'accumulator shape); the incremented cell is [x, y, a[t, x], b[t, y]] and '
+    'the three loops cover all frames / features; (D2) prange ownership '
+    'jc[a_row, ...] and a zero-initialised accumulator; (D3) axis roles in '
+    'mutual_information, decided on an abstract axis model of the joint-count '
+    'array (which count axes every factor of the accumulated term keeps, which '
+    'loop index indexes which axis, what each loop ranges over, which cells '
+    'are skipped, what every factor is normalised by); (D4) channel-capacity '
+    'grid orientation (n_x along axis 0, n_y along axis 1, whatever way the '
+    'grid is built), element-wise minimum, log divisor, private copy, '
+    'validation against the matching axis of mi; (D5) every masked ufunc has '
+    'an initialised out=; (D6) argument order X,Y,n_x,n_y into the kernel by '
+    'origin of every argument, default state counts, dtype harmonisation casts '
+    'only under an itemsize ordering that makes it widening, pooled counts '
+    'accumulate by addition before one MI computation; (D7) relative entropy '
+    'term p log(p/q) with exactly the NaN cells zeroed, entropy -sum p log p '
+    'with the log masked to p > 0; no argument mutation. The '
+    'information-theoretic identities themselves are not decided.')
 
+
+# ---------------------------------------------------------------------------
+# helpers (candidates for a shared module, see the hardening report)
+
+_MODULE_ALIASES = ('np', 'numpy', 'scipy', 'math')
+
+
+def _fi(mod, fn):
+    """FuncInfo whose in-place-mutation table does not list module aliases:
+    `out=np.zeros(...)` makes sa.normal._mutated_names report `np` as mutated,
+    which blocks the expansion of every temporary defined through `np.f(...)`
+    as soon as a second masked ufunc follows it."""
+    fi = finfo(mod, fn)
+    muts = fi._mutation_sites()
+    for a in _MODULE_ALIASES:
+        muts.pop(a, None)
+    return fi
+
+
+def _cx(node):
+    """Canonical text of an (expanded) expression."""
+    return u(canon(node))
+
+
+def _is_const(node, value):
+    return isinstance(node, ast.Constant) and node.value is value
+
+
+def _index_items(sl):
+    return list(sl.elts) if isinstance(sl, ast.Tuple) else [sl]
+
+
+def _full_slice(it):
+    return isinstance(it, ast.Slice) and it.lower is None and it.upper is None and it.step is None
+
+
+_PASS_METHODS = {'astype', 'copy', 'view'}
+_PASS_FUNCS = {'np.asarray', 'np.array', 'np.ascontiguousarray', 'np.asanyarray', 'np.copy',
+               'np.atleast_1d', 'np.atleast_2d'}
+
+
+def _passthrough(v):
+    """The Name whose elements the value `v` still holds (same ids, possibly
+    another dtype / extra unit axes / a validated copy), else None."""
+    while v is not None:
+        if isinstance(v, ast.Name):
+            return v
+        if isinstance(v, ast.Subscript):
+            if all(_is_const(i, None) or _is_const(i, Ellipsis) or _full_slice(i) for i in _index_items(v.slice)):
+                v = v.value
+                continue
+            return None
+        if isinstance(v, ast.Call):
+            cn = call_name(v) or ''
+            if isinstance(v.func, ast.Attribute) and v.func.attr in _PASS_METHODS and \
+                    not (isinstance(v.func.value, ast.Name) and v.func.value.id in _MODULE_ALIASES):
+                v = v.func.value
+                continue
+            if (cn in _PASS_FUNCS or 'validate' in cn.split('.')[-1]) and v.args and \
+                    not isinstance(v.args[0], ast.Starred):
+                v = v.args[0]
+                continue
+        return None
+    return None
+
+
+def _origins(fi, name, at, memo, stack):
+    """Set of parameters `name` may hold at `at` (None: some definition is
+    not a value-preserving function of a parameter)."""
+    out = set()
+    for site in fi.rd.defs_at(at, name):
+        if site == 'PARAM':
+            out.add(name)
+            continue
+        if site == 'UNBOUND':
+            return None
+        key = (id(site), name)
+        if key in stack:
+            continue                      # loop-carried redefinition: adds no new origin
+        if key not in memo:
+            stack.add(key)
+            v = fi.def_value(site, name)
+            r = set() if v is not None else None
+            for alt in ([v.body, v.orelse] if isinstance(v, ast.IfExp) else [v]) if v is not None else []:
+                inner = _passthrough(alt)
+                o = _origins(fi, inner.id, site, memo, stack) if inner is not None else None
+                if o is None:
+                    r = None
+                    break
+                r |= o
+            stack.discard(key)
+            memo[key] = r
+        if memo[key] is None:
+            return None
+        out |= memo[key]
+    return out
+
+
+def _origin(fi, name, at):
+    """The parameter whose (validated / reshaped / re-typed / copied) value
+    the local `name` holds at statement `at` on EVERY path, else None."""
+    out = _origins(fi, name, at, {}, set())
+    return next(iter(out)) if out is not None and len(out) == 1 else None
+
+
+def _origin_of(fi, expr, at):
+    inner = _passthrough(expr)
+    return _origin(fi, inner.id, at) if inner is not None else None
+
+
+_ALLOCS = {'np.zeros', 'np.zeros_like', 'np.empty', 'np.empty_like', 'np.ones', 'np.ones_like', 'np.full', 'np.full_like'}
+
+
+def _out_fill(fi, name, at):
+    """`name = np.zeros(...)` ... `np.f(x, y, where=m, out=name)` ... use at
+    `at`: the value of the buffer at `at` is that of the single expression
+    `np.f(x, y, where=m, out=np.zeros(...))` - a masked ufunc written as
+    allocation + fill instead of inline out=.  Returns that expression
+    (expanded) or None."""
+    cache = fi.__dict__.setdefault('_c18_fills', {})
+    key = (name, id(at))
+    if key in cache:
+        return cache[key]
+    cache[key] = None
+    defs = fi.rd.defs_at(at, name)
+    if len(defs) != 1:
+        return None
+    site = next(iter(defs))
+    if not isinstance(site, ast.Assign) or len(site.targets) != 1 or not isinstance(site.targets[0], ast.Name):
+        return None
+    alloc = site.value
+    if not (isinstance(alloc, ast.Call) and call_name(alloc) in _ALLOCS):
+        return None
+    muts = fi._mutated_in_place(name)
+    if len(muts) != 1 or not isinstance(muts[0], ast.Expr) or not isinstance(muts[0].value, ast.Call):
+        return None
+    m, c = muts[0], muts[0].value
+    out = kwarg(c, 'out')
+    if not (isinstance(out, ast.Name) and out.id == name and (call_name(c) or '').startswith('np.')):
+        return None
+    others = [n for x in list(c.args) + [k.value for k in c.keywords if k.arg != 'out'] for n in ast.walk(x) if isinstance(n, ast.Name)]
+    if any(n.id == name for n in others):
+        return None
+    if not (fi.cfg.dominates(site, m) and fi.cfg.dominates(m, at)):
+        return None
+    for n in others:
+        if n.id in fi.rd.locals and fi.rd.defs_at(m, n.id) != fi.rd.defs_at(at, n.id):
+            return None
+    for n in ast.walk(alloc):
+        if isinstance(n, ast.Name) and n.id in fi.rd.locals and fi.rd.defs_at(site, n.id) != fi.rd.defs_at(at, n.id):
+            return None
+    r = fi.expand(c)
+    for k in r.keywords:
+        if k.arg == 'out':
+            k.value = fi.expand(alloc)
+    cache[key] = r
+    return r
+
+
+def _xp(fi, expr, at, stop=()):
+    """fi.expand + substitution of allocate-then-fill buffers (see _out_fill)
+    as seen from statement `at`."""
+    e = fi.expand(expr, stop=stop)
+
+    class T(ast.NodeTransformer):
+        def visit_Name(self, n):
+            if isinstance(n.ctx, ast.Load) and n.id not in stop:
+                r = _out_fill(fi, n.id, at)
+                if r is not None:
+                    return copy.deepcopy(r)
+            return n
+    e = T().visit(e)
+    ast.fix_missing_locations(e)
+    return e
+
+
+def _facts(fi, stmt):
+    """[(test, polarity, owner)]: tests known to be true/false whenever
+    control reaches `stmt` (dominating if-branches, early exits, asserts)."""
+    out = []
+    for n in fi.cfg.nodes:
+        if isinstance(n, Assume):
+            if fi.cfg.dominates(n, stmt):
+                out.append((n.test, n.polarity, n.owner))
+        elif isinstance(n, ast.Assert) and n is not stmt and fi.cfg.dominates(n, stmt):
+            out.append((n.test, True, n))
+    return out
+
+
+def _atoms(fi, stmt, stop=()):
+    """Atomic facts (patterns.Cmp or ('expr', e, polarity)) that hold at
+    `stmt`, over expanded operands; a fact is dropped when one of its
+    operands may have been rebound between the guard and `stmt`."""
+    atoms = []
+    for test, pol, owner in _facts(fi, stmt):
+        e = _xp(fi, test, stmt, stop=stop)
+        names = {n.id for n in ast.walk(e) if isinstance(n, ast.Name)}
+        if any(fi.rd.defs_at(owner, nm) != fi.rd.defs_at(stmt, nm) for nm in names if nm in fi.rd.locals):
+            continue
+        cs = conjuncts(canon(e), pol)
+        if cs:
+            atoms += cs
+    return atoms
+
+
+def _atom_names(a):
+    es = [a.lhs, a.rhs] if isinstance(a, Cmp) else [a[1]]
+    return {n.id for e in es for n in ast.walk(e) if isinstance(n, ast.Name)}
+
+
+def _enclosing_loops(mod, stmt):
+    out = []
+    n = mod.parent.get(stmt)
+    while n is not None and not isinstance(n, (ast.FunctionDef, ast.AsyncFunctionDef)):
+        if isinstance(n, ast.For):
+            out.append(n)
+        n = mod.parent.get(n)
+    return out
+
+
+def _loop_of(fi, name, at):
+    """The for statement that binds the plain loop variable `name` seen at `at`."""
+    defs = fi.rd.defs_at(at, name)
+    if len(defs) != 1:
+        return None
+    site = next(iter(defs))
+    if isinstance(site, ast.For) and isinstance(site.target, ast.Name) and site.target.id == name:
+        return site
+    return None
+
+
+def _range_extent(it):
+    """E for `range(E)` / `range(0, E)` / `range(0, E, 1)` / `prange(E, ...)`."""
+    if not (isinstance(it, ast.Call) and call_name(it) in ('range', 'prange', 'cython.parallel.prange', 'parallel.prange')):
+        return None
+    a = it.args
+    if any(isinstance(x, ast.Starred) for x in a):
+        return None
+    if len(a) == 1:
+        return a[0]
+    if len(a) in (2, 3) and const_value(a[0]) == 0 and (len(a) == 2 or const_value(a[2]) == 1):
+        return a[1]
+    return None
+
+
+# ---------------------------------------------------------------------------
+# D1 / D2 kernel
 
 def d1_kernel(ck):
     mod = ck.repo.mod(LI)
     fused = mod.tree.cy_fused
     fn = mod.func('matrix_bincount2d')
+    F = 'matrix_bincount2d'
     d = fn.cy_directives
     ck.ok('C18.kernel', mod, fn, 'matrix_bincount2d boundscheck=%s wraparound=%s' % (
         d.get('boundscheck'), d.get('wraparound')), 'unchecked kernel')
@@ -44,28 +309,78 @@ def d1_kernel(ck):
     ck.floor('C18.D2.prange', npr, 1, 'prange loops')
     nz = check_zero_before_accumulate(ck, 'C18.D2.zero-first', mod, fn, fused)
     ck.floor('C18.D2.zero-first', nz, 1, 'accumulations')
-    # length agreement guard
-    ok = any(isinstance(s, ast.Assert) and u(s.test) in ('a.shape[0] == b.shape[0]', 'b.shape[0] == a.shape[0]')
-             for s in walk_local(fn))
-    ck.check(ok, 'C18.D1.lengths', mod, fn, 'matrix_bincount2d', 'assert a.shape[0] == b.shape[0]',
-             'feature arrays of different lengths are rejected',
-             'the kernel iterates t over a.shape[0] and reads b[t, ...]: arrays of different '
-             'lengths must be rejected')
-    # the count cell: jc[a_row, b_row, i, j] += 1 with i from a, j from b
-    fi = finfo(mod, fn)
-    for s in walk_local(fn):
-        if isinstance(s, ast.AugAssign) and isinstance(s.target, ast.Subscript) and u(s.target.value) == 'jc':
-            dims = s.target.slice.elts if isinstance(s.target.slice, ast.Tuple) else []
-            ok = len(dims) == 4 and isinstance(s.op, ast.Add) and const_value(s.value) == 1
-            srcs = []
-            for dnode in dims[2:]:
-                v = fi.resolve(dnode)
-                srcs.append(u(v))
-            ok = ok and len(srcs) == 2 and srcs[0].startswith('a[') and srcs[1].startswith('b[') and \
-                u(dims[0]) in srcs[0] and u(dims[1]) in srcs[1]
-            ck.check(ok, 'C18.D1.cell', mod, s, 'matrix_bincount2d', '%s with i=%s j=%s' % (u(s), srcs[0] if srcs else '?', srcs[1] if len(srcs) > 1 else '?'),
-                     'cell [x, y, state of x in a, state of y in b] incremented by one per frame',
-                     'the incremented cell must be jc[a_row, b_row, a[t, a_row], b[t, b_row]] += 1')
+
+    fi = _fi(mod, fn)
+    if len(params(fn)) < 4:
+        ck.missing('C18.D1.cell', 'kernel signature (a, b, n_a, n_b)')
+        return
+    A, B = params(fn)[:2]
+    # the count table is the array that is returned; its cells are incremented
+    rets = [r.value for r in returns_of(fn) if r.value is not None]
+    JC = rets[0].id if len(rets) == 1 and isinstance(rets[0], ast.Name) else None
+    incs = [s for s in walk_local(fn) if isinstance(s, ast.AugAssign) and isinstance(s.target, ast.Subscript)
+            and isinstance(s.target.value, ast.Name) and s.target.value.id == JC]
+    if JC is None or not incs:
+        ck.missing('C18.D1.cell', 'increment `<returned table>[x, y, i, j] += 1` in matrix_bincount2d')
+        return
+    ext = lambda arr, k: ['%s.shape[%d]' % (arr, k)] + (['len(%s)' % arr] if k == 0 else [])
+    for s in incs:
+        loops = _enclosing_loops(mod, s)
+        lvars = {l.target.id for l in loops if isinstance(l.target, ast.Name)}
+        scope = {A, B} | lvars
+        # ---- feature arrays of different lengths are rejected before the loops
+        want = {(x, y) for x in ext(A, 0) for y in ext(B, 0)}
+        want |= {(y, x) for x, y in want}
+        facts = _atoms(fi, s)
+        eqs = [a for a in facts if isinstance(a, Cmp) and a.op is ast.Eq]
+        both = [a for a in eqs if {A, B} <= _atom_names(a)]
+        unread = [a for a in facts if a not in eqs and {A, B} <= _atom_names(a)]
+        if any((_cx(a.lhs), _cx(a.rhs)) in want for a in both):
+            ck.ok('C18.D1.lengths', mod, s, 'assert %s.shape[0] == %s.shape[0]' % (A, B),
+                  'feature arrays of different lengths are rejected')
+        elif both:
+            ck.bad('C18.D1.lengths', mod, s, F, '; '.join(repr(a) for a in both),
+                   'the length guard compares %s: the kernel iterates t over %s.shape[0] and reads %s[t, ...], so the '
+                   'guard must be %s.shape[0] == %s.shape[0]' % (both[0], A, B, A, B))
+        elif unread:
+            ck.missing('C18.D1.lengths', 'a dominating test relates %s and %s but is not recognised as the length guard: %s' % (
+                A, B, '; '.join(repr(a) if isinstance(a, Cmp) else u(a[1]) for a in unread)[:160]))
+        else:
+            ck.bad('C18.D1.lengths', mod, s, F, 'assert %s.shape[0] == %s.shape[0]' % (A, B),
+                   'the kernel iterates t over %s.shape[0] and reads %s[t, ...]: arrays of different lengths must be '
+                   'rejected (no dominating equality of the two frame counts found)' % (A, B))
+        # ---- the count cell: jc[x, y, a[t, x], b[t, y]] += 1
+        dims = _index_items(s.target.slice)
+        cell = ast.Tuple(elts=[fi.expand(x) for x in dims], ctx=ast.Load())
+        v = classify(cell, ['(_FA, _FB, %s[_T, _FA], %s[_T, _FB])' % (A, B)], scope=scope)
+        one = isinstance(s.op, ast.Add) and const_value(fi.expand(s.value)) == 1
+        if v[0] == 'match' and not one:
+            v = ('near', 1, None)
+        ck.decide(v, 'C18.D1.cell', mod, s, F, '%s with cell %s' % (u(s), _cx(cell)),
+                  'cell [x, y, state of x in a, state of y in b] incremented by one per frame',
+                  'the incremented cell must be jc[a_row, b_row, a[t, a_row], b[t, b_row]] += 1')
+        if v[0] != 'match':
+            continue
+        # ---- every frame / feature pair is visited exactly once
+        b = v[1]
+        for meta, arr, k, what in (('_T', A, 0, 'frame'), ('_FA', A, 1, 'first-feature'), ('_FB', B, 1, 'second-feature')):
+            nm = b[meta]
+            loop = _loop_of(fi, nm.id, s) if isinstance(nm, ast.Name) else None
+            if loop is None:
+                ck.missing('C18.D1.cell.loops', 'loop binding the %s index `%s`' % (what, u(nm)))
+                continue
+            e = _range_extent(fi.expand(loop.iter))
+            forms = ext(arr, k) + (ext(B if arr == A else A, 0) if k == 0 else [])
+            if e is None:
+                vv = classify(fi.expand(loop.iter), ['range(%s)' % f for f in forms], scope=scope)
+                if vv[0] == 'match':
+                    vv = ('far', 0, None)
+            else:
+                vv = classify(e, forms, scope=scope)
+            ck.decide(vv, 'C18.D1.cell.loops', mod, loop, F, 'for %s in %s' % (nm.id, _cx(fi.expand(loop.iter))),
+                      '%s index runs over all of %s.shape[%d]' % (what, arr, k),
+                      'the %s index must run over range(%s.shape[%d]): every frame of every feature pair is counted '
+                      'exactly once' % (what, arr, k))
     # the 1-D sibling kernel (not called by the package, but public and unchecked)
     fn2 = mod.functions.get('bincount2d')
     if fn2 is not None and fn2.cy_directives.get('boundscheck') is False:
@@ -73,285 +388,866 @@ def d1_kernel(ck):
         check_zero_before_accumulate(ck, 'C18.D2.zero-first', mod, fn2, fused)
 
 
+# ---------------------------------------------------------------------------
+# D3 axis model of the joint-count array
+
+class _Unk(Exception):
+    pass
+
+
+class _Val:
+    """Abstract value of an array expression derived from the 4-D joint
+    counts jc[x, y, i, j]: which count axes are still present (`axes`, None =
+    a broadcast unit axis), which were indexed away and by what (`idx`), and
+    for a quotient which axes numerator and denominator had."""
+
+    def __init__(self, kind, axes, idx, num=None, den=None, aligned=True):
+        self.kind, self.axes, self.idx = kind, list(axes), dict(idx)
+        self.num, self.den, self.aligned = num, den, aligned
+
+
+def _int_list(node):
+    if isinstance(node, (ast.Tuple, ast.List)):
+        vals = [const_value(e) for e in node.elts]
+    else:
+        vals = [const_value(node)]
+    if any(not isinstance(v, int) or isinstance(v, bool) for v in vals):
+        raise _Unk('axis is not a literal: %s' % u(node))
+    return vals
+
+
+def _interp(e, is_jc):
+    if isinstance(e, ast.Name):
+        if is_jc(e):
+            return _Val('count', [0, 1, 2, 3], {})
+        raise _Unk('array `%s` is not derived from the joint counts' % e.id)
+    if isinstance(e, ast.BinOp) and isinstance(e.op, ast.Div):
+        return _quot(e.left, e.right, is_jc)
+    if isinstance(e, ast.Call):
+        cn = call_name(e) or ''
+        f = e.func
+        if cn in ('np.divide', 'np.true_divide', 'numpy.divide', 'numpy.true_divide') and len(e.args) >= 2:
+            return _quot(e.args[0], e.args[1], is_jc)
+        if isinstance(f, ast.Attribute) and not (isinstance(f.value, ast.Name) and f.value.id in _MODULE_ALIASES):
+            if f.attr == 'sum':
+                v = _interp(f.value, is_jc)
+                if v.kind != 'count':
+                    raise _Unk('sum of a quotient')
+                ax = kwarg(e, 'axis') or (e.args[0] if e.args else None)
+                n = len(v.axes)
+                which = list(range(n)) if ax is None or _is_const(ax, None) else _int_list(ax)
+                if any(not -n <= k < n for k in which):
+                    raise _Unk('axis out of range in %s' % u(e)[:60])
+                which = {k % n for k in which}
+                keep = kwarg(e, 'keepdims')
+                if keep is not None and const_value(keep) is not True and const_value(keep) is not False:
+                    raise _Unk('keepdims is not a literal')
+                keep = keep is not None and const_value(keep) is True
+                axes = [(None if keep else 'drop') if i in which else a for i, a in enumerate(v.axes)]
+                return _Val('count', [a for a in axes if a != 'drop'], v.idx)
+            if f.attr in ('astype', 'copy'):
+                return _interp(f.value, is_jc)
+        if cn in ('np.asarray', 'np.array', 'np.asfarray', 'np.ascontiguousarray', 'float', 'np.float64') and e.args \
+                and not isinstance(e.args[0], ast.Starred):
+            return _interp(e.args[0], is_jc)
+        raise _Unk('cannot see through %s' % u(e)[:60])
+    if isinstance(e, ast.Subscript):
+        v = _interp(e.value, is_jc)
+        items = _index_items(e.slice)
+        real = [it for it in items if not _is_const(it, None) and not _is_const(it, Ellipsis)]
+        if len(real) > len(v.axes) or sum(1 for it in items if _is_const(it, Ellipsis)) > 1:
+            raise _Unk('too many indices in %s' % u(e)[:60])
+        axes, idx, pos = [], dict(v.idx), 0
+        for it in items:
+            if _is_const(it, Ellipsis):
+                fill = len(v.axes) - len(real)
+                axes += v.axes[pos:pos + fill]
+                pos += fill
+            elif _is_const(it, None):
+                axes.append(None)
+            elif isinstance(it, ast.Slice):
+                if not _full_slice(it):
+                    raise _Unk('partial slice in %s' % u(e)[:60])
+                axes.append(v.axes[pos])
+                pos += 1
+            else:
+                if v.axes[pos] is None:
+                    raise _Unk('index into a broadcast axis in %s' % u(e)[:60])
+                idx[v.axes[pos]] = it
+                pos += 1
+        axes += v.axes[pos:]
+        return _Val(v.kind, axes, idx, v.num, v.den, v.aligned)
+    raise _Unk('cannot see through %s' % u(e)[:60])
+
+
+def _quot(a, b, is_jc):
+    va, vb = _interp(a, is_jc), _interp(b, is_jc)
+    if va.kind != 'count' or vb.kind != 'count' or va.idx or vb.idx:
+        raise _Unk('quotient of something else than two count arrays')
+    if len(vb.axes) > len(va.axes):
+        raise _Unk('divisor has more axes than the dividend')
+    aligned = all(vb.axes[-1 - k] is None or vb.axes[-1 - k] == va.axes[-1 - k] for k in range(len(vb.axes)))
+    return _Val('prob', va.axes, {}, num=list(va.axes), den=list(vb.axes), aligned=aligned)
+
+
+_AXNAME = {0: 'first-feature', 1: 'second-feature', 2: 'first-state', 3: 'second-state'}
+
+
 def d3_axes(ck):
     rule = 'C18.D3.axes'
+    F = 'mutual_information'
     mod = ck.repo.mod(MI)
-    fn = mod.func('mutual_information')
+    fn = mod.func(F)
     ck.analysed(mod, fn)
-    fi = finfo(mod, fn)
-
-    def resolved_chain(name_node):
-        return fi.resolve(name_node)
-    # P_a / P_b: np.divide(<marginal>, n_obs[..., None], ...)
-    roles = {}
-    for s in walk_local(fn):
-        if isinstance(s, ast.Assign) and isinstance(s.value, ast.Call) and call_name(s.value) == 'np.divide' \
-                and isinstance(s.targets[0], ast.Name) and s.value.args:
-            num = s.value.args[0]
-            v = fi.resolve(num) if isinstance(num, ast.Name) else num
-            if isinstance(v, ast.Call) and isinstance(v.func, ast.Attribute) and v.func.attr == 'sum':
-                ax = const_value(kwarg(v, 'axis') or (v.args[0] if v.args else None))
-                roles[s.targets[0].id] = (u(v.func.value), ax, s)
-            elif isinstance(v, ast.Name):
-                roles[s.targets[0].id] = (v.id, None, s)
-    # loop structure
-    loops = [l for l in walk_local(fn) if isinstance(l, ast.For)]
-    inner = [l for l in loops if isinstance(l.iter, ast.Call) and 'shape[' in u(l.iter)]
-    # find P_x_y = P_a_b[i, j] ; P_x = P_a[i, j] ; P_y = P_b[i, j]
-    loc = {}
-    for s in walk_local(fn):
-        if isinstance(s, ast.Assign) and isinstance(s.targets[0], ast.Name) and isinstance(s.value, ast.Subscript) \
-                and isinstance(s.value.value, ast.Name) and s.value.value.id in roles:
-            loc[s.targets[0].id] = (s.value.value.id, s)
-    # the accumulate term uses P_x_y[u, v], P_x[u], P_y[v]
+    fi = _fi(mod, fn)
+    if not params(fn):
+        ck.missing(rule, 'joint-count parameter of mutual_information')
+        return
+    JC = params(fn)[0]
+    # the MI matrix is what is returned; the term is what is accumulated into it
+    rets = [r.value for r in returns_of(fn) if r.value is not None]
+    if len(rets) != 1 or not isinstance(rets[0], ast.Name):
+        ck.missing(rule, 'mutual_information returns one named array')
+        return
+    OUT = rets[0].id
     acc = [s for s in walk_local(fn) if isinstance(s, ast.AugAssign) and isinstance(s.target, ast.Subscript)
-           and u(s.target.value) == 'mi']
+           and isinstance(s.target.value, ast.Name) and s.target.value.id == OUT]
     if len(acc) != 1:
-        ck.missing(rule, 'accumulation into mi[i, j]')
+        ck.missing(rule, 'one accumulation `%s[i, j] += <term>` (found %d)' % (OUT, len(acc)))
         return
     a = acc[0]
-    subs = [x for x in ast.walk(a.value) if isinstance(x, ast.Subscript) and isinstance(x.value, ast.Name)]
-    joint = [x for x in subs if isinstance(x.slice, ast.Tuple) and len(x.slice.elts) == 2]
-    if not joint:
-        ck.missing(rule, 'joint probability P[u, v] in the accumulated term')
+    lvars = {l.target.id for l in _enclosing_loops(mod, a) if isinstance(l.target, ast.Name)}
+    scope = {JC} | lvars
+    term = _xp(fi, a.value, a)
+    v = classify(term, ['_J * np.log(_J / (_PX * _PY))', 'np.log(_J / (_PX * _PY)) * _J', '_J * np.log(_J / _PX / _PY)',
+                        '_J * (np.log(_J) - np.log(_PX * _PY))', '_J * (np.log(_J) - np.log(_PX) - np.log(_PY))',
+                        '_J * (np.log(_J) - (np.log(_PX) + np.log(_PY)))'], scope=scope)
+    if v[0] == 'match' and not isinstance(a.op, ast.Add):
+        v = ('near', 1, None)
+    ck.decide(v, rule + '.term', mod, a, F, u(a), 'p(x,y) * log(p(x,y) / (p(x) p(y))) is added',
+              'the accumulated term must be p_xy * log(p_xy / (p_x * p_y)), added to the entry')
+    if v[0] != 'match':
         return
-    uu, vv = [u(e) for e in joint[0].slice.elts]
-    jname = joint[0].value.id
-    singles = [x for x in subs if not isinstance(x.slice, ast.Tuple)]
+    J, PX, PY = v[1]['_J'], v[1]['_PX'], v[1]['_PY']
+    short = lambda e: u(e) if len(u(e)) < 60 else u(e)[:28] + ' ... ' + u(e)[-28:]
+
+    def is_jc(n):
+        return _origin(fi, n.id, a) == JC
+    try:
+        vj, vx, vy = _interp(J, is_jc), _interp(PX, is_jc), _interp(PY, is_jc)
+    except _Unk as e:
+        ck.missing(rule, 'a factor of the accumulated term is not recognised as a normalised (marginal of the) joint '
+                         'count array: %s' % e)
+        return
+    if any(w.axes or w.kind != 'prob' for w in (vj, vx, vy)):
+        ck.missing(rule, 'the factors of the accumulated term are not single cells of normalised count arrays')
+        return
+    # ---- the joint factor is a cell of the normalised 4-D counts
+    if vj.num != [0, 1, 2, 3] or set(vj.idx) != {0, 1, 2, 3}:
+        ck.bad(rule, mod, a, F, short(J), 'the joint probability in the MI term must be a cell [i, j, u, v] of the '
+               'normalised joint counts; found count axes %s' % vj.num)
+        return
+    jidx = {k: _cx(e) for k, e in vj.idx.items()}
+    # ---- marginals: which state axis they keep and which loop index indexes it
     n = 0
-    for x in singles:
-        nm = x.value.id
-        idx = u(x.slice)
-        src = loc.get(nm)
-        if src is None or src[0] not in roles:
-            ck.bad(rule, mod, x, 'mutual_information', u(x), 'marginal `%s` does not come from a normalised marginal array' % nm)
+    kept = []
+    for lab, e, w in (('p_x', PX, vx), ('p_y', PY, vy)):
+        st = [k for k in w.num if k in (2, 3)]
+        if w.num[:2] != [0, 1] or len(w.num) != 3 or len(st) != 1 or set(w.idx) != set(w.num):
+            ck.bad(rule, mod, a, F, short(e), 'marginal factor of the MI term must be a cell [i, j, state] of the joint counts '
+                   'summed over ONE state axis; found count axes %s' % w.num)
             continue
-        base, ax, stmt = roles[src[0]]
         n += 1
-        # axis -1 summed away -> remaining state axis is the FIRST state axis (u)
-        want_idx = uu if ax in (-1, 3) else vv if ax in (-2, 2) else None
-        ck.check(want_idx == idx and base == params(fn)[0] or (want_idx == idx and base == 'jc'),
-                 rule, mod, x, 'mutual_information',
-                 '%s where %s <- %s <- %s.sum(axis=%s)' % (u(x), nm, src[0], base, ax),
-                 'marginal over axis %s is indexed by the %s state index' % (ax, 'first' if want_idx == uu else 'second'),
-                 'the marginal obtained by summing axis %s of the joint counts is the distribution of the '
-                 '%s feature and must be indexed with `%s`, the index that runs over axis %s of the '
-                 'joint block; found `%s`' % (ax, 'first' if ax in (-1, 3) else 'second', want_idx,
-                                              '-2' if ax in (-1, 3) else '-1', idx))
+        s = st[0]
+        kept.append(s)
+        got = {k: _cx(x) for k, x in w.idx.items()}
+        bad = [k for k in got if got[k] != jidx[k]]
+        summed = 5 - s
+        ck.check(not bad, rule, mod, a, F,
+                 '%s = <counts summed over axis %d>[%s] against joint[%s]' % (
+                     lab, summed, ', '.join(got[k] for k in sorted(got)), ', '.join(jidx[k] for k in range(4))),
+                 'marginal over axis %d is the distribution of the %s and is indexed by the %s index `%s`' % (
+                     summed, _AXNAME[s].replace('-state', ' feature'), _AXNAME[s], jidx[s]),
+                 'summing axis %d of the joint counts leaves the distribution of the %s; its cell must be taken at the '
+                 'index the joint block uses on axis %d (`%s`) and at the same feature pair; found %s' % (
+                     summed, _AXNAME[s].replace('-state', ' feature'), s, jidx[s],
+                     ', '.join('axis %d indexed by `%s` (joint: `%s`)' % (k, got[k], jidx[k]) for k in bad)))
     ck.floor(rule, n, 2, 'marginal uses in the MI term')
-    # loop ranges: u over shape[0], v over shape[1] of the joint block
-    for l in inner:
-        t = u(l.target)
-        if t == uu:
-            ck.check(u(l.iter) == 'range(%s.shape[0])' % jname, rule + '.ranges', mod, l, 'mutual_information',
-                     'for %s in %s' % (t, u(l.iter)), 'first state index ranges over axis 0 of the joint block',
-                     'first state index must range over %s.shape[0]' % jname)
-        if t == vv:
-            ck.check(u(l.iter) == 'range(%s.shape[1])' % jname, rule + '.ranges', mod, l, 'mutual_information',
-                     'for %s in %s' % (t, u(l.iter)), 'second state index ranges over axis 1 of the joint block',
-                     'second state index must range over %s.shape[1]' % jname)
-    # term is P_xy * log(P_xy / (P_x * P_y)); guard skips zero cells
-    term = a.value
-    ok = isinstance(term, ast.BinOp) and isinstance(term.op, ast.Mult) and u(term.left) == u(joint[0]) and \
-        isinstance(term.right, ast.Call) and call_name(term.right) == 'np.log'
-    if ok:
-        arg = term.right.args[0]
-        ok = isinstance(arg, ast.BinOp) and isinstance(arg.op, ast.Div) and u(arg.left) == u(joint[0]) and \
-            isinstance(arg.right, ast.BinOp) and isinstance(arg.right.op, ast.Mult)
-    ck.check(ok, rule + '.term', mod, a, 'mutual_information', u(a),
-             'p(x,y) * log(p(x,y) / (p(x) p(y)))', 'the accumulated term must be p_xy * log(p_xy / (p_x * p_y))')
-    g = mod.parent.get(a)
-    ok = isinstance(g, ast.If)
-    if ok:
-        t = fi.resolve(g.test.operand) if isinstance(g.test, ast.UnaryOp) and isinstance(g.test.operand, ast.Name) else g.test
-        txt = u(t)
-        ok = all(('%s == 0' % u(x)) in txt for x in [joint[0]] + singles[:2])
-    ck.check(ok, rule + '.guard', mod, g if isinstance(g, ast.If) else a, 'mutual_information',
-             u(g.test) if isinstance(g, ast.If) else '?', 'cells with a zero probability are skipped (0 log 0 = 0)',
-             'the term must be skipped when p_xy, p_x or p_y is zero')
-    # n_obs = sum over both state axes; divisors broadcast over trailing axes
-    for nm, (base, ax, s) in roles.items():
-        den = s.value.args[1] if len(s.value.args) > 1 else None
-        want = 'n_obs[..., None]' if ax is not None else 'n_obs[..., None, None]'
-        ck.check(den is not None and u(den) == want, rule + '.normalise', mod, s, 'mutual_information', u(s)[:140],
+    if len(kept) == 2:
+        ck.check(sorted(kept) == [2, 3], rule, mod, a, F, 'marginals of state axes %s' % kept,
+                 'one marginal per feature', 'the two marginal factors must be the distributions of the two DIFFERENT features '
+                 '(state axes 2 and 3); both keep axis %d' % kept[0])
+    # ---- the entry that is accumulated is the entry of the same feature pair
+    tgt = [_cx(_xp(fi, x, a)) for x in _index_items(a.target.slice)]
+    ck.check(tgt == [jidx[0], jidx[1]], rule, mod, a, F, '%s accumulates joint[%s]' % (u(a.target), ', '.join(jidx[k] for k in range(4))),
+             'entry (i, j) accumulates the terms of feature pair (i, j)',
+             'the entry accumulated must be [%s, %s], the feature pair whose joint block is summed' % (jidx[0], jidx[1]))
+    # ---- the accumulator starts at zero
+    ds = fi.rd.defs_at(a, OUT)
+    site = next(iter(ds)) if len(ds) == 1 else None
+    val = fi.def_value(site, OUT) if isinstance(site, (ast.Assign, ast.AnnAssign)) else None
+    iv = fi.expand(val) if val is not None else None
+    icn = call_name(iv) if isinstance(iv, ast.Call) else None
+    if icn in ('np.zeros', 'np.zeros_like'):
+        ck.ok(rule + '.init', mod, site, u(site), 'the MI entries start at zero')
+    elif icn in ('np.ones', 'np.ones_like', 'np.empty', 'np.empty_like', 'np.full', 'np.full_like') or \
+            (isinstance(iv, ast.Call) and isinstance(iv.func, ast.Attribute) and iv.func.attr == 'copy'):
+        ck.bad(rule + '.init', mod, site, F, u(site), 'the terms are ADDED to the entries of `%s`: it must start as zeros, not %s' % (OUT, icn or u(iv)[:60]))
+    else:
+        ck.missing(rule + '.init', 'zero initialisation of the accumulated array `%s`' % OUT)
+    # ---- loop ranges: index of count axis k runs over the extent of axis k
+    for k in range(4):
+        nm = vj.idx[k]
+        loop = _loop_of(fi, nm.id, a) if isinstance(nm, ast.Name) else None
+        if loop is None:
+            ck.missing(rule + '.ranges', 'for loop binding the %s index `%s`' % (_AXNAME[k], u(nm)))
+            continue
+        it = _xp(fi, loop.iter, a)
+        e = _range_extent(it)
+        con = 'for %s in %s' % (nm.id, short(it))
+        if e is None:
+            vv = classify(it, ['range(_X.shape[_K])'], scope=scope)
+            ck.decide(('far', 0, None) if vv[0] == 'match' else vv, rule + '.ranges', mod, loop, F, con, '',
+                      'the %s index must run over range(<extent of count axis %d>)' % (_AXNAME[k], k))
+            continue
+        vv = classify(e, ['_X.shape[_K]', 'len(_X)'], scope=scope)
+        if vv[0] == 'match':
+            try:
+                w = _interp(vv[1]['_X'], is_jc)
+                kk = const_value(vv[1]['_K']) if '_K' in vv[1] else 0
+                if not isinstance(kk, int) or not -len(w.axes) <= kk < len(w.axes):
+                    raise _Unk('axis')
+                got = w.axes[kk]
+            except _Unk:
+                vv = ('far', 0, None)
+            else:
+                ck.check(got == k, rule + '.ranges', mod, loop, F, con,
+                         '%s index ranges over count axis %d' % (_AXNAME[k], k),
+                         'the %s index `%s` indexes count axis %d but ranges over the extent of %s' % (
+                             _AXNAME[k], nm.id, k, 'count axis %s' % got if got is not None else 'a unit axis'))
+                continue
+        ck.decide(vv, rule + '.ranges', mod, loop, F, con, '',
+                  'the %s index must run over the full extent of count axis %d' % (_AXNAME[k], k))
+    # ---- cells with a zero probability are skipped (0 log 0 = 0, no division by zero)
+    sidx = {jidx[2], jidx[3]}
+    atoms = [x for x in _atoms(fi, a) if _atom_names(x) & sidx]
+    nonzero = {}
+    opaque = False
+    for x in atoms:
+        if isinstance(x, Cmp):
+            if x.op is ast.NotEq and const_value(x.rhs) == 0:
+                nonzero[u(x.lhs)] = x.lhs
+            elif x.op is ast.NotEq and const_value(x.lhs) == 0:
+                nonzero[u(x.rhs)] = x.rhs
+            elif x.op is ast.Lt and const_value(x.lhs) == 0:
+                nonzero[u(x.rhs)] = x.rhs
+            elif x.op is ast.Gt and const_value(x.rhs) == 0:
+                nonzero[u(x.lhs)] = x.lhs
+            elif const_value(x.lhs) is None and const_value(x.rhs) is None:
+                opaque = True             # a test the rule does not interpret
+        elif x[2]:
+            nonzero[u(x[1])] = x[1]       # truthiness of a float cell = non-zero
+        else:
+            opaque = True
+    need = [(lab, u(e)) for lab, e in (('p_xy', J), ('p_x', PX), ('p_y', PY))]
+    # a non-zero test of something that is not a factor of the term (a precomputed mask, a helper): not interpreted
+    for t, node in nonzero.items():
+        if t not in [w for _, w in need]:
+            try:
+                _interp(node, is_jc)      # a cell of another array derived from the counts: a wrong operand
+            except _Unk:
+                opaque = True
+    lacking = [lab for lab, t in need if t not in nonzero]
+    con = ' and '.join(repr(x) if isinstance(x, Cmp) else ('' if x[2] else 'not ') + u(x[1]) for x in atoms)
+    con = (con[:200] or 'no guard on the accumulation')
+    if not lacking:
+        ck.ok(rule + '.guard', mod, a, con, 'cells with a zero probability are skipped (0 log 0 = 0)')
+    elif opaque:
+        ck.missing(rule + '.guard', 'guard of the accumulation not recognised: %s' % con)
+    else:
+        ck.bad(rule + '.guard', mod, a, F, con, 'the term must be skipped when p_xy, p_x or p_y is zero; no dominating '
+               'test establishes %s != 0' % ', '.join(lacking))
+    # ---- every factor is normalised by the per-pair observation count
+    for lab, e, w in (('p_xy', J, vj), ('p_x', PX, vx), ('p_y', PY, vy)):
+        want = [0, 1] + [None] * (len(w.num) - 2)
+        ck.check(w.den == want and w.aligned, rule + '.normalise', mod, a, F,
+                 '%s = counts%s / counts%s' % (lab, w.num, w.den),
                  'normalised by the per-pair observation count broadcast over the state axes',
-                 'the divisor of `%s` must be %s' % (nm, want))
+                 'the divisor of %s must be the total count of the feature pair (all state axes summed away) with '
+                 '%d trailing unit axes; found a divisor with count axes %s against a dividend with %s' % (
+                     lab, len(w.num) - 2, w.den, w.num))
+
+
+# ---------------------------------------------------------------------------
+# D4 channel-capacity grid
+
+_MIN_FUNCS = {'np.fmin', 'np.minimum'}
+_OUTER_MIN = {'np.fmin.outer', 'np.minimum.outer'}
+_OTHER_BINARY = {'np.fmax', 'np.maximum', 'np.add', 'np.multiply', 'np.fmax.outer', 'np.maximum.outer', 'np.add.outer',
+                 'np.multiply.outer', 'np.subtract', 'np.hypot', 'np.power'}
+_COPY_FORMS = ['_P.copy()', 'np.array(_P, copy=True)', 'np.copy(_P)', '_P.astype(_T)', '_P.astype(_T, copy=True)',
+               'np.array(_P, dtype=_T)', 'np.array(_P, dtype=_T, copy=True)', '_P + 0', '_P * 1', '+_P', 'copy.copy(_P)',
+               'copy.deepcopy(_P)']
+
+
+def _private_copy_of(fi, name, at, P, depth=4):
+    """'copy' if on every path `name` (at statement `at`) holds a fresh copy
+    of parameter P; 'alias' if on some path it IS the caller's array (or a
+    view of it); None if a definition cannot be seen through."""
+    res = set()
+    for site in fi.rd.defs_at(at, name):
+        if site == 'PARAM':
+            res.add('alias')
+            continue
+        v = fi.def_value(site, name) if site != 'UNBOUND' and depth > 0 else None
+        if v is None:
+            res.add(None)
+            continue
+        b = None
+        for f in _COPY_FORMS:
+            b = match(f, v)
+            if b is not None:
+                break
+        if b is not None and isinstance(b['_P'], ast.Name):
+            # a copy of the parameter, of a view of it or of a copy of it
+            res.add('copy' if _origin(fi, b['_P'].id, site) == P or
+                    _private_copy_of(fi, b['_P'].id, site, P, depth - 1) is not None else None)
+            continue
+        inner = _passthrough(v)           # np.asarray(mi), mi[...], validated(mi): may share memory
+        res.add(_private_copy_of(fi, inner.id, site, P, depth - 1) if inner is not None else None)
+    return 'alias' if 'alias' in res else None if None in res or not res else 'copy'
+
+
+def _meshgrid_element(call, k):
+    """(vector expression, axis it varies along) for element k of np.meshgrid(v0, v1, ...)."""
+    if call_name(call) not in ('np.meshgrid', 'numpy.meshgrid') or len(call.args) != 2 or \
+            any(isinstance(x, ast.Starred) for x in call.args) or k not in (0, 1):
+        return None
+    ix = kwarg(call, 'indexing')
+    mode = 'xy' if ix is None else const_value(ix)
+    if mode == 'ij':
+        return call.args[k], k
+    if mode == 'xy':
+        return call.args[k], 1 - k
+    return None
+
+
+def _grid_operand(fi, e, at):
+    """(vector expression, axis of the 2-D grid along which it varies)."""
+    e = canon(e)
+    if isinstance(e, ast.Name):
+        defs = fi.rd.defs_at(at, e.id)
+        if len(defs) == 1:
+            site = next(iter(defs))
+            if isinstance(site, ast.Assign) and len(site.targets) == 1 and isinstance(site.targets[0], (ast.Tuple, ast.List)) \
+                    and isinstance(site.value, ast.Call):
+                names = [t.id if isinstance(t, ast.Name) else None for t in site.targets[0].elts]
+                if names.count(e.id) == 1 and len(names) == 2:
+                    return _meshgrid_element(fi.expand(site.value), names.index(e.id))
+                return None
+        return e, 1                              # a plain vector broadcasts along the last axis
+    if isinstance(e, ast.Subscript):
+        if isinstance(e.value, ast.Call) and isinstance(const_value(e.slice), int):
+            return _meshgrid_element(e.value, const_value(e.slice))
+        items = _index_items(e.slice)
+        if len(items) == 2 and _full_slice(items[0]) and _is_const(items[1], None):
+            return e.value, 0                    # v[:, None]
+        if (len(items) == 2 and _is_const(items[0], None) and (_full_slice(items[1]) or _is_const(items[1], Ellipsis))) or \
+                (len(items) == 1 and _is_const(items[0], None)):
+            return e.value, 1                    # v[None, :] / v[None]
+    return None
 
 
 def d4_grid(ck):
     rule = 'C18.D4.grid'
+    F = 'channel_capacity_normalization'
     mod = ck.repo.mod(MI)
-    fn = mod.func('channel_capacity_normalization')
+    fn = mod.func(F)
     ck.analysed(mod, fn)
-    fi = finfo(mod, fn)
-    # the per-pair state-count grid: any of
-    #   np.fmin(*np.meshgrid(n_x, n_y, indexing='ij'))      np.fmin(*np.meshgrid(n_y, n_x))  [xy]
-    #   np.fmin(n_x[:, None], n_y[None, :]) / np.fmin(n_x[:, None], n_y)      np.minimum.outer(n_x, n_y)
-    grids = [s for s in walk_local(fn) if isinstance(s, ast.Assign) and isinstance(s.value, ast.Call)
-             and (call_name(s.value) or '') in ('np.fmin', 'np.minimum', 'np.minimum.outer', 'np.fmin.outer')]
-    if len(grids) != 1:
-        ck.missing(rule, 'definition of the per-pair minimum state-count grid (np.fmin/np.minimum)')
+    fi = _fi(mod, fn)
+    if len(params(fn)) < 3:
+        ck.missing(rule, 'signature (mi, n_x, n_y)')
         return
-    gs = grids[0]
-    gv = gs.value
-    gname = u(gs.targets[0])
-    ok = False
-    why = ''
-    if len(gv.args) == 1 and isinstance(gv.args[0], ast.Starred) and isinstance(gv.args[0].value, ast.Call) \
-            and call_name(gv.args[0].value) == 'np.meshgrid':
-        c = gv.args[0].value
-        ix = kwarg(c, 'indexing')
-        args = [u(a) for a in c.args]
-        ok = (args == ['n_x', 'n_y'] and ix is not None and const_value(ix) == 'ij') or \
-            (args == ['n_y', 'n_x'] and (ix is None or const_value(ix) == 'xy'))
-        why = 'np.meshgrid(%s, indexing=%s)' % (', '.join(args), u(ix) if ix is not None else "default 'xy'")
-    elif (call_name(gv) or '').endswith('.outer'):
-        ok = [u(a) for a in gv.args] == ['n_x', 'n_y']
-        why = u(gv)
-    elif len(gv.args) == 2:
-        def axis_of(e):
-            # returns (vector name, axis it varies along in the 2-D grid)
-            from .C08 import row_factor, col_wrong
-            r = row_factor(e)
-            if r is not None:
-                return u(r), 0
-            cwrong = col_wrong(e)
-            if cwrong is not None:
-                return u(cwrong), 1
-            return u(e), 1
-        roles = dict(axis_of(a) for a in gv.args)
-        ok = roles == {'n_x': 0, 'n_y': 1}
-        why = 'broadcast grid with %s' % roles
-    ck.check(ok, rule, mod, gs, 'channel_capacity_normalization', u(gs),
-             'grid axes are (n_x, n_y), matching mi[i, j] (%s)' % why,
-             'mi has shape (n_features_a, n_features_b) = (len(n_x), len(n_y)): entry (i, j) must be divided by '
-             'log(min(n_x[i], n_y[j])). The grid built here (%s) has n_x along the other axis: a ValueError for '
-             'unequal feature counts and a transposed divisor otherwise' % why)
-    ck.ok(rule + '.min', mod, gs, u(gs), 'per-pair SMALLER state count (%s)' % call_name(gv))
-    dv = [x for x in calls_in(fn, 'np.divide')]
-    ok = len(dv) == 1 and u(dv[0].args[0]) == 'mi' and call_name(dv[0].args[1]) == 'np.log' and \
-        u(dv[0].args[1].args[0]) == gname and u(kwarg(dv[0], 'out')) == 'mi'
-    ck.check(ok, rule + '.divide', mod, dv[0] if dv else fn, 'channel_capacity_normalization', u(dv[0]) if dv else 'np.divide',
-             'mi / log(min states) in the private copy', 'entry (i, j) must be divided by log(min_num_states[i, j])')
-    # works on a copy
-    cp = [s for s in assigns_to(fn, 'mi') if isinstance(s, ast.Assign)]
-    ok = bool(cp) and u(cp[0].value) in ('mi.copy()', 'np.copy(mi)', 'np.array(mi)', 'np.array(mi, copy=True)') and \
-        fn.body.index(cp[0]) < fn.body.index(fi.stmt(dv[0])) if dv and cp and cp[0] in fn.body else False
-    ck.check(ok, rule + '.copy', mod, cp[0] if cp else fn, 'channel_capacity_normalization', u(cp[0]) if cp else 'mi.copy()',
-             'the in-place divide runs on a private copy', 'mi must be copied before the in-place divide (out=mi)')
-    # validation of n_x against mi.shape[0], n_y against mi.shape[1]
-    for nm, dim in (('n_x', 0), ('n_y', 1)):
-        ss = [s for s in assigns_to(fn, nm) if isinstance(s, ast.Assign) and isinstance(s.value, ast.Call)]
-        ok = bool(ss) and (call_name(ss[0].value) or '').endswith('_validate_feature_states_array') and \
-            [u(a) for a in ss[0].value.args] == [nm, 'mi.shape[%d]' % dim]
-        ck.check(ok, rule + '.validate', mod, ss[0] if ss else fn, 'channel_capacity_normalization',
-                 u(ss[0]) if ss else nm, '%s validated against mi.shape[%d]' % (nm, dim),
-                 '%s must be validated/broadcast against mi.shape[%d]' % (nm, dim))
+    M, NX, NY = params(fn)[:3]
+    # ---- the division: np.divide(num, den[, out=]) / num /= den / num / den with num <- mi
+    cands = []
+    for s in walk_local(fn):
+        if isinstance(s, ast.AugAssign) and isinstance(s.op, ast.Div) and isinstance(s.target, ast.Name):
+            cands.append((s, s, s.target, s.value, s.target))
+    for c in calls_in(fn, 'np.divide', 'np.true_divide'):
+        if len(c.args) >= 2:
+            cands.append((fi.stmt(c), c, c.args[0], c.args[1], kwarg(c, 'out')))
+    for s in walk_local(fn):
+        if isinstance(s, (ast.Assign, ast.Return)) and isinstance(s.value, ast.BinOp) and isinstance(s.value.op, ast.Div):
+            cands.append((s, s.value, s.value.left, s.value.right, None))
+    divs = [x for x in cands if isinstance(x[2], ast.Name) and _origin(fi, x[2].id, x[0]) == M]
+    if len(divs) != 1:
+        ck.missing(rule + '.divide', 'the division of (a copy of) `%s` by the log state-count grid (found %d candidates)' % (M, len(divs)))
+        return
+    st, dnode, num, den, out = divs[0]
+    # ---- works on a private copy
+    if out is None:
+        ck.ok(rule + '.copy', mod, dnode, u(dnode), 'the quotient is a new array; the argument is not written')
+    elif not isinstance(out, ast.Name):
+        ck.missing(rule + '.copy', 'out= operand of the divide is not a name: %s' % u(out))
+    else:
+        r = _private_copy_of(fi, out.id, st, M)
+        if r is None:
+            ck.missing(rule + '.copy', 'definition of the in-place divide target `%s` not recognised' % out.id)
+        else:
+            ck.check(r == 'copy', rule + '.copy', mod, dnode, F, u(dnode),
+                     'the in-place divide runs on a private copy of `%s`' % M,
+                     '`%s` may still be the caller\'s array when the in-place divide (out=%s) runs: it must be copied first' % (out.id, out.id))
+    # ---- divisor = log(grid)
+    tup = {}       # names bound by unpacking a pure call (the meshgrid pair)
+    for s in walk_local(fn):
+        if isinstance(s, ast.Assign) and len(s.targets) == 1 and isinstance(s.targets[0], (ast.Tuple, ast.List)):
+            for t in s.targets[0].elts:
+                if isinstance(t, ast.Name):
+                    tup[t.id] = s
+    scope = {M, NX, NY} | set(tup)
+    d = fi.expand(den)
+    v = classify(d, ['np.log(_G)'], scope=scope)
+    ck.decide(v, rule + '.divide', mod, dnode, F, u(dnode), 'mi / log(min states)',
+              'entry (i, j) must be divided by the natural log of the per-pair minimum state count (the MI is in nats)')
+    if v[0] != 'match':
+        return
+    G = v[1]['_G']
+    if not isinstance(G, ast.Call):
+        ck.missing(rule, 'per-pair state-count grid is not built by a call: %s' % u(G)[:100])
+        return
+    gn = call_name(G) or ''
+    gtxt = u(G) if len(u(G)) < 120 else u(G)[:117] + '...'
+    if gn in _MIN_FUNCS or gn in _OUTER_MIN:
+        ck.ok(rule + '.min', mod, dnode, gtxt, 'per-pair SMALLER state count (%s)' % gn)
+    elif gn in _OTHER_BINARY:
+        ck.bad(rule + '.min', mod, dnode, F, gtxt, 'the channel capacity of a pair is the log of the SMALLER of the two state '
+               'counts: the grid must be built with np.fmin / np.minimum, not %s' % gn)
+        return
+    else:
+        ck.missing(rule + '.min', 'grid function %s not recognised (np.fmin / np.minimum expected)' % gn)
+        return
+    # ---- orientation of the grid
+    ops = None
+    if gn in _OUTER_MIN and len(G.args) == 2:
+        ops = [(G.args[0], 0), (G.args[1], 1)]
+    elif len(G.args) == 1 and isinstance(G.args[0], ast.Starred):
+        m = G.args[0].value
+        if isinstance(m, ast.Call):
+            ops = [_meshgrid_element(m, 0), _meshgrid_element(m, 1)]
+    elif len(G.args) == 2 and not any(isinstance(x, ast.Starred) for x in G.args):
+        ops = [_grid_operand(fi, x, st) for x in G.args]
+    if not ops or any(o is None for o in ops):
+        ck.missing(rule, 'operands of the grid are not recognised as vectors spread along one axis: %s' % gtxt)
+        return
+    roles = {}
+    vec_nodes = {}
+    for vec, ax in ops:
+        o = _origin_of(fi, vec, st)
+        if o is None:
+            ck.missing(rule, 'grid operand `%s` is not derived from %s / %s' % (u(vec), NX, NY))
+            return
+        roles.setdefault(o, set()).add(ax)
+        vec_nodes[o] = _passthrough(vec)
+    why = ', '.join('%s along axis %s' % (k, '/'.join(str(x) for x in sorted(roles[k]))) for k in sorted(roles))
+    ck.check(roles == {NX: {0}, NY: {1}}, rule, mod, dnode, F, gtxt,
+             'grid axes are (%s, %s), matching mi[i, j] (%s)' % (NX, NY, why),
+             'mi has shape (n_features_a, n_features_b) = (len(%s), len(%s)): entry (i, j) must be divided by '
+             'log(min(%s[i], %s[j])). The grid built here has %s: a ValueError for '
+             'unequal feature counts and a transposed / wrong divisor otherwise' % (NX, NY, NX, NY, why))
+    # ---- validation of n_x against mi.shape[0], n_y against mi.shape[1]
+    for P, dim in ((NX, 0), (NY, 1)):
+        vn = vec_nodes.get(P)
+        if vn is None:
+            continue
+        sites = fi.rd.defs_at(st, vn.id)
+        for site in sites:
+            if site == 'PARAM' or not isinstance(site, ast.Assign) or not isinstance(site.value, ast.Call) or \
+                    'validate' not in (call_name(site.value) or '').split('.')[-1]:
+                if site == 'PARAM':
+                    ck.bad(rule + '.validate', mod, fn, F, '%s reaches the grid unvalidated' % P,
+                           '%s must be validated/broadcast against %s.shape[%d] before the grid is built' % (P, M, dim))
+                else:
+                    ck.missing(rule + '.validate', 'definition of `%s` reaching the grid is not a validation call' % vn.id)
+                continue
+            c = site.value
+            ext = fi.expand(c.args[1]) if len(c.args) == 2 and not c.keywords else None
+            b = match('_W.shape[_K]', ext) if ext is not None else None
+            if b is None and ext is not None and match('len(_W)', ext) is not None:
+                b = dict(match('len(_W)', ext), _K=ast.Constant(value=0))
+            if b is None or not isinstance(b['_W'], ast.Name) or _origin_of(fi, c.args[0], site) != P:
+                ck.missing(rule + '.validate', 'validation call not recognised: %s' % u(site)[:120])
+                continue
+            same = _origin(fi, b['_W'].id, site) == M
+            if not same:
+                ck.missing(rule + '.validate', 'extent in %s is not taken from `%s`' % (u(site)[:100], M))
+                continue
+            ck.check(const_value(b['_K']) in (dim, dim - 2), rule + '.validate', mod, site, F, u(site),
+                     '%s validated against %s.shape[%d]' % (P, M, dim),
+                     '%s must be validated/broadcast against %s.shape[%d] (one state count per feature of that side)' % (P, M, dim))
+
+
+# ---------------------------------------------------------------------------
+# D6 joint_counts / mi_matrix
+
+def _zip_source(fi, name, at):
+    """`name` is bound by `for ... in [enumerate(]zip(A, B, ...)[)]`: the
+    expression whose elements it takes."""
+    defs = fi.rd.defs_at(at, name)
+    if len(defs) != 1:
+        return None
+    site = next(iter(defs))
+    if not isinstance(site, ast.For):
+        return None
+    tgt, it = site.target, site.iter
+    if isinstance(it, ast.Call) and call_name(it) == 'enumerate' and len(it.args) == 1 and \
+            isinstance(tgt, (ast.Tuple, ast.List)) and len(tgt.elts) == 2:
+        tgt, it = tgt.elts[1], it.args[0]
+    if isinstance(tgt, ast.Name):
+        return it if tgt.id == name else None
+    if isinstance(it, ast.Call) and call_name(it) == 'zip' and isinstance(tgt, (ast.Tuple, ast.List)) and \
+            len(tgt.elts) == len(it.args) and not any(isinstance(x, ast.Starred) for x in it.args):
+        for t, src in zip(tgt.elts, it.args):
+            if isinstance(t, ast.Name) and t.id == name:
+                return src
+    return None
+
+
+def _itemsize_owner(fi, e, at):
+    for f in ('_A.dtype.itemsize', '_A.itemsize'):
+        b = match(f, e)
+        if b is not None and isinstance(b['_A'], ast.Name):
+            return _origin(fi, b['_A'].id, at)
+    return None
 
 
 def d6_joint_counts(ck):
     rule = 'C18.D6.joint-counts'
+    F = 'joint_counts'
     mod = ck.repo.mod(MI)
-    fn = mod.func('joint_counts')
+    fn = mod.func(F)
     ck.analysed(mod, fn)
-    fi = finfo(mod, fn)
+    fi = _fi(mod, fn)
+    if len(params(fn)) < 4:
+        ck.missing(rule + '.args', 'signature (X, Y, n_x, n_y)')
+        return
+    X, Y, NX, NY = params(fn)[:4]
     kc = [c for c in calls_in(fn) if (call_name(c) or '').endswith('matrix_bincount2d')]
     n = 0
+    defaults_seen = {NX: 0, NY: 0}
+    reported = set()
+    xy_calls = []
+    all_ok = True
     for c in kc:
-        args = [u(a) for a in c.args]
         n += 1
-        ok = args in (['X', 'Y', 'n_x', 'n_y'], ['X', 'X', 'n_x', 'n_x'])
-        ck.check(ok, rule + '.args', mod, c, 'joint_counts', u(c),
+        st = fi.stmt(c)
+        if len(c.args) != 4 or c.keywords or any(isinstance(x, ast.Starred) for x in c.args):
+            ck.missing(rule + '.args', 'kernel call with four positional arguments: %s' % u(c))
+            all_ok = False
+            continue
+        arrs = [_origin_of(fi, x, st) for x in c.args[:2]]
+        cnts = [_origin_of(fi, x, st) if not isinstance(x, ast.Name) or x.id not in (NX, NY) else x.id for x in c.args[2:]]
+        if None in arrs or None in cnts:
+            ck.missing(rule + '.args', 'origin of the kernel arguments in %s' % u(c))
+            all_ok = False
+            continue
+        sides = list(zip(arrs, cnts))
+        is_self = sides == [(X, NX), (X, NX)]
+        ck.check(sides == [(X, NX), (Y, NY)] or is_self, rule + '.args', mod, c, F,
+                 '%s  [arguments hold %s]' % (u(c), ', '.join(arrs + cnts)),
                  'kernel called as (first, second, states of first, states of second)',
                  'matrix_bincount2d(a, b, n_a, n_b) must receive (X, Y, n_x, n_y) (or (X, X, n_x, n_x) '
                  'for self counts): swapped arrays or state counts put counts in the transposed cell / '
                  'check ids against the wrong range')
-        if args[:2] == ['X', 'X']:
-            g = mod.parent.get(fi.stmt(c))
-            while g is not None and not isinstance(g, ast.If):
-                g = mod.parent.get(g)
-            ck.check(g is not None and u(g.test) == 'Y is None', rule + '.self', mod, c, 'joint_counts', u(c),
-                     'self counts only when Y is None', 'self joint counts must be confined to Y is None')
+        if not (sides == [(X, NX), (Y, NY)] or is_self):
+            all_ok = False
+            continue
+        if is_self:
+            known = any(isinstance(a, Cmp) and a.op is ast.Is and u(a.lhs) == Y and _is_const(a.rhs, None)
+                        for a in _atoms(fi, st, stop=(X, Y)))
+            ck.check(known, rule + '.self', mod, c, F, u(c),
+                     'self counts only when %s is None' % Y, 'self joint counts must be confined to %s is None' % Y)
+        else:
+            xy_calls.append((c, st))
+        # defaults of the state counts that reach this call
+        for k in (0, 1):
+            cn = c.args[2 + k]
+            if not isinstance(cn, ast.Name):
+                continue
+            for site in fi.rd.defs_at(st, cn.id):
+                if site in ('PARAM', 'UNBOUND') or (id(site), arrs[k]) in reported:
+                    continue
+                reported.add((id(site), arrs[k]))
+                val = fi.def_value(site, cn.id) if isinstance(site, (ast.Assign, ast.AnnAssign)) else None
+                if val is None:
+                    ck.missing(rule + '.defaults', 'definition of %s at %s' % (cn.id, mod.loc(site)))
+                    continue
+                defaults_seen[cnts[k]] += 1
+                vv = classify(fi.expand(val, stop=(X, Y)), ['_A.max() + 1', '1 + _A.max()', 'int(_A.max()) + 1', 'int(_A.max() + 1)'],
+                              scope={X, Y})
+                if vv[0] == 'match':
+                    src = _origin_of(fi, vv[1]['_A'], site)
+                    if src is None:
+                        vv = ('far', 0, None)
+                    elif src != arrs[k]:
+                        vv = ('near', 1, '%s.max() + 1' % arrs[k])
+                    else:
+                        guarded = any(isinstance(a, Cmp) and a.op is ast.Is and u(a.lhs) == cn.id and _is_const(a.rhs, None)
+                                      for a in _atoms(fi, site, stop=(X, Y)))
+                        if not guarded:
+                            ck.bad(rule + '.defaults', mod, site, F, u(site),
+                                   'the default state count overrides a caller-supplied %s: it must only be computed when %s is None' % (cn.id, cn.id))
+                            continue
+                ck.decide(vv, rule + '.defaults', mod, site, F, u(site), 'default state count = max id + 1 of its own array',
+                          'default %s must be %s.max() + 1 when %s is None' % (cn.id, arrs[k], cn.id))
     ck.floor(rule + '.args', n, 2, 'kernel call sites')
-    # defaults: n_x = X.max()+1, n_y = Y.max()+1
-    for nm, src in (('n_x', 'X'), ('n_y', 'Y')):
-        ss = [s for s in assigns_to(fn, nm) if isinstance(s, ast.Assign)]
-        ok = len(ss) == 1 and u(ss[0].value) in ('%s.max() + 1' % src, 'np.max(%s) + 1' % src)
-        g = mod.parent.get(ss[0]) if ss else None
-        ok = ok and isinstance(g, ast.If) and u(g.test) == '%s is None' % nm
-        ck.check(ok, rule + '.defaults', mod, ss[0] if ss else fn, 'joint_counts', u(ss[0]) if ss else nm,
-                 'default state count = max id + 1 of its own array', 'default %s must be %s.max() + 1 when %s is None' % (nm, src, nm))
-    # dtype harmonisation: the narrower side is cast up
-    found = False
-    for g in walk_local(fn):
-        if not isinstance(g, ast.If):
+    for nm in (NX, NY):
+        if n >= 2 and all_ok and defaults_seen[nm] == 0:
+            ck.bad(rule + '.defaults', mod, fn, F, nm,
+                   'no default for %s reaches the kernel: it must be <its array>.max() + 1 when %s is None' % (nm, nm))
+    # ---- dtype harmonisation: a cast to the other side's dtype must be widening
+    casts = []
+    for s in walk_local(fn):
+        if isinstance(s, ast.Assign) and len(s.targets) == 1 and isinstance(s.targets[0], ast.Name) and \
+                isinstance(s.value, ast.Call) and isinstance(s.value.func, ast.Attribute) and s.value.func.attr == 'astype' \
+                and s.value.args:
+            src = _origin_of(fi, s.value.func.value, s)
+            if src in (X, Y):
+                casts.append((s, src))
+    if not casts:
+        ck.missing(rule + '.uptype', 'dtype harmonisation (`<array>.astype(<other>.dtype)`) in joint_counts')
+    cast_sides = set()
+    unrecognised = False
+    for s, src in casts:
+        other = Y if src == X else X
+        dt, dat = fi.expand(s.value.args[0], stop=(X, Y)), s
+        while isinstance(dt, ast.Name):
+            # a named dtype holds the value it had where it was defined: read its definition there
+            ds = fi.rd.defs_at(dat, dt.id)
+            site = next(iter(ds)) if len(ds) == 1 else None
+            val = fi.def_value(site, dt.id) if isinstance(site, (ast.Assign, ast.AnnAssign)) else None
+            if val is None:
+                break
+            dt, dat = fi.expand(val, stop=(X, Y)), site
+        b = match('_O.dtype', dt) if dat is s else None
+        common = None
+        for f in ('np.promote_types(_A.dtype, _B.dtype)', 'np.result_type(_A, _B)', 'np.result_type(_A.dtype, _B.dtype)'):
+            common = common or match(f, dt)
+        if common is not None and {_origin_of(fi, common['_A'], dat), _origin_of(fi, common['_B'], dat)} == {X, Y}:
+            cast_sides.add(src)
+            ck.ok(rule + '.uptype', mod, s, u(s), 'cast to the common (promoted) type of both arrays')
             continue
-        cs = conjuncts(g.test, True)
-        if not (cs and len(cs) == 1 and isinstance(cs[0], Cmp)):
+        if b is None or _origin_of(fi, b['_O'], s) is None:
+            ck.missing(rule + '.uptype', 'target dtype of the cast not recognised: %s' % u(s))
+            unrecognised = True
             continue
-        less = cs[0].as_less()
-        if less is None or 'itemsize' not in u(g.test):
-            continue
-        found = True
-        small, strict, big = less        # small.itemsize < big.itemsize in the body
-        narrow = u(small).split('.')[0]
-        wide = u(big).split('.')[0]
-
-        def casts(body):
-            out = []
-            for s in body:
-                if isinstance(s, ast.Assign) and isinstance(s.value, ast.Call) and \
-                        isinstance(s.value.func, ast.Attribute) and s.value.func.attr == 'astype':
-                    out.append((u(s.targets[0]), u(s.value.func.value), u(s.value.args[0])))
-            return out
-        b, e = casts(g.body), casts(g.orelse)
-        ok = b == [(narrow, narrow, '%s.dtype' % wide)] and e == [(wide, wide, '%s.dtype' % narrow)]
-        ck.check(ok, rule + '.uptype', mod, g, 'joint_counts', '%s: %s else %s' % (u(g.test), b, e),
-                 'the array with the smaller itemsize is cast to the wider dtype',
-                 'when dtypes differ the NARROWER array must be cast up to the wider dtype; casting the '
-                 'wider one down wraps state ids that do not fit (counts land in another cell)')
-    if not found:
-        ck.missing(rule + '.uptype', 'itemsize comparison in joint_counts')
-    # mi_matrix pooled counts
-    fm = mod.func('mi_matrix')
+        if _origin_of(fi, b['_O'], s) == src:
+            continue                                   # a cast to its own dtype changes nothing
+        cast_sides.add(src)
+        verdict, opaque, seen = None, False, []
+        for a in _atoms(fi, s, stop=(X, Y)):
+            if isinstance(a, Cmp):
+                less = a.as_less()
+                if less is None:
+                    continue
+                small, strict, big = less
+                so, bo = _itemsize_owner(fi, small, s), _itemsize_owner(fi, big, s)
+                if {so, bo} != {X, Y}:
+                    continue
+                seen.append(repr(a))
+                if so == src and bo == other:
+                    verdict = verdict or 'widening'
+                else:
+                    verdict = 'narrowing'
+            elif 'dtype' in u(a[1]) or 'can_cast' in u(a[1]):
+                opaque = True
+        con = '%s under %s' % (u(s), ' and '.join(seen) or 'no itemsize test')
+        if verdict == 'widening':
+            ck.ok(rule + '.uptype', mod, s, con, 'the array with the smaller itemsize is cast to the wider dtype')
+        elif verdict is None and opaque:
+            ck.missing(rule + '.uptype', 'guard of the cast not recognised: %s' % con)
+            unrecognised = True
+        else:
+            ck.bad(rule + '.uptype', mod, s, F, con,
+                   'when dtypes differ the NARROWER array must be cast up to the wider dtype; here %s is cast to the dtype of '
+                   '%s %s: casting the wider one down wraps state ids that do not fit (counts land in another cell)' % (
+                       src, other, 'although %s' % ' and '.join(seen) if seen else 'without a test that its itemsize is the smaller one'))
+        # the cast result is what the kernel receives
+        k = 0 if src == X else 1
+        for c, st in xy_calls:
+            a = c.args[k]
+            used = isinstance(a, ast.Name) and a.id == s.targets[0].id and s in fi.rd.defs_at(st, a.id)
+            ck.check(used, rule + '.uptype', mod, c, F, '%s after %s' % (u(c), u(s)), 'the up-typed array is passed to the kernel',
+                     'the result of `%s` does not reach the kernel call: the arrays keep different dtypes' % u(s))
+    if casts and cast_sides and cast_sides != {X, Y} and not unrecognised:
+        ck.bad(rule + '.uptype', mod, casts[0][0], F, 'casts of %s only' % ', '.join(sorted(cast_sides)),
+               'only one of the two arrays is ever cast: when the other one is the narrower, the dtypes stay different '
+               '(or the wider array is cast down)')
+    # ---- mi_matrix: pooled counts
+    rule_p = rule + '.pooled'
+    G = 'mi_matrix'
+    fm = mod.func(G)
     ck.analysed(mod, fm)
-    jcalls = [c for c in calls_in(fm) if call_name(c) == 'joint_counts']
-    ok = len(jcalls) == 1 and [u(a) for a in jcalls[0].args] == ['X', 'Y', C('np.max(n_x)'), C('np.max(n_y)')]
-    ck.check(ok, rule + '.pooled', mod, jcalls[0] if jcalls else fm, 'mi_matrix', u(jcalls[0]) if jcalls else 'joint_counts',
-             'every trajectory counted with the same (max) state counts', 'joint_counts(X, Y, np.max(n_x), np.max(n_y)) expected')
-    acc = [s for s in walk_local(fm) if isinstance(s, ast.AugAssign) and u(s.target) == 'jc']
-    ck.check(len(acc) == 1 and isinstance(acc[0].op, ast.Add) and u(acc[0].value) == 'jc_i', rule + '.pooled', mod,
-             acc[0] if acc else fm, 'mi_matrix', u(acc[0]) if acc else 'jc += jc_i',
-             'counts pooled by addition before the MI is computed', 'pooled counts must be accumulated with jc += jc_i')
-    mic = [c for c in calls_in(fm) if call_name(c) == 'mutual_information']
-    ck.check(len(mic) == 1 and u(mic[0].args[0]) == 'jc', rule + '.pooled', mod, mic[0] if mic else fm, 'mi_matrix',
-             u(mic[0]) if mic else 'mutual_information(jc)', 'MI computed once from the pooled counts',
-             'mutual_information must be computed from the pooled counts')
-    cc = [c for c in calls_in(fm) if call_name(c) == 'channel_capacity_normalization']
-    ck.check(len(cc) == 1 and [u(a) for a in cc[0].args] == ['mi', 'n_x', 'n_y'], rule + '.pooled', mod,
-             cc[0] if cc else fm, 'mi_matrix', u(cc[0]) if cc else 'ccn', 'normalised with (mi, n_x, n_y)',
-             'channel_capacity_normalization(mi, n_x, n_y) expected')
+    fim = _fi(mod, fm)
+    if len(params(fm)) < 4:
+        ck.missing(rule_p, 'signature (Xs, Ys, n_x, n_y)')
+        return
+    XS, YS, MX, MY = params(fm)[:4]
+    jcalls = [c for c in calls_in(fm) if (call_name(c) or '').split('.')[-1] == 'joint_counts']
+    if len(jcalls) != 1 or len(jcalls[0].args) != 4 or jcalls[0].keywords:
+        ck.missing(rule_p, 'one call joint_counts(X, Y, <states>, <states>) in mi_matrix')
+        return
+    jc_call = jcalls[0]
+    jst = fim.stmt(jc_call)
+    srcs = [_zip_source(fim, a.id, jst) if isinstance(a, ast.Name) else None for a in jc_call.args[:2]]
+    if any(x is None for x in srcs):
+        ck.missing(rule_p, 'trajectory arguments of %s are not loop variables over zip(%s, %s)' % (u(jc_call), XS, YS))
+    else:
+        ck.check([u(x) for x in srcs] == [XS, YS], rule_p, mod, jc_call, G, '%s with (X, Y) from (%s)' % (u(jc_call), ', '.join(u(x) for x in srcs)),
+                 'each trajectory pair is counted as (first, second)', 'joint_counts must receive the trajectory of %s first and of %s second' % (XS, YS))
+    for a, p in zip(jc_call.args[2:], (MX, MY)):
+        vv = classify(fim.expand(a, stop=(MX, MY)), ['%s.max()' % p, 'int(%s.max())' % p], scope={MX, MY})
+        ck.decide(vv, rule_p, mod, jc_call, G, '%s: %s' % (u(jc_call), u(a)), 'every trajectory counted with the same (max) state count of its side',
+                  'the state-count argument must be np.max(%s): all trajectories must be counted into tables of one shape, with the '
+                  'state count of the matching side' % p)
+    mic = [c for c in calls_in(fm) if (call_name(c) or '').split('.')[-1] == 'mutual_information']
+    if len(mic) != 1 or len(mic[0].args) != 1 or not isinstance(mic[0].args[0], ast.Name):
+        ck.missing(rule_p, 'one call mutual_information(<pooled counts>) in mi_matrix')
+        return
+    mst = fim.stmt(mic[0])
+    POOL = mic[0].args[0].id
+    ck.check(not fim.cfg.reachable(mst, mst) and not fim.cfg.reachable(mst, jst), rule_p, mod, mic[0], G, u(mic[0]),
+             'MI computed once, after all trajectories were counted',
+             'mutual_information must be computed once from the pooled counts, after the counting loop')
+    is_count = lambda e, at: isinstance(e, ast.Name) and fim.resolve(e) is jc_call or e is jc_call
+    adds, plain, other = [], [], []
+    for site in fim.rd.defs_at(mst, POOL):
+        if site in ('PARAM', 'UNBOUND'):
+            other.append(site)
+        elif isinstance(site, ast.AugAssign):
+            (adds if isinstance(site.op, ast.Add) and is_count(site.value, site) else other).append(site)
+        elif isinstance(site, ast.Assign):
+            val = fim.def_value(site, POOL)
+            if val is not None and is_count(val, site):
+                plain.append(site)
+            elif val is not None and (_is_const(val, None) or (isinstance(val, ast.Call) and call_name(val) in ('np.zeros', 'np.zeros_like'))):
+                pass                      # neutral start of the running total
+            elif isinstance(val, ast.BinOp) and isinstance(val.op, ast.Add) and \
+                    {True} == {isinstance(x, ast.Name) and x.id == POOL or is_count(x, site) for x in (val.left, val.right)} and \
+                    any(isinstance(x, ast.Name) and x.id == POOL for x in (val.left, val.right)):
+                adds.append(site)
+            else:
+                other.append(site)
+        else:
+            other.append(site)
+    if adds and not other:
+        ck.ok(rule_p, mod, adds[0], u(adds[0]), 'counts pooled by addition before the MI is computed')
+    elif other:
+        ck.missing(rule_p, 'a definition of the pooled counts `%s` is not recognised (%s)' % (
+            POOL, '; '.join(u(s)[:60] if not isinstance(s, str) else s for s in other)))
+    else:
+        ck.bad(rule_p, mod, plain[0] if plain else mic[0], G, '; '.join(u(s) for s in plain) or POOL,
+               'the counts of the trajectories are never added: `%s` is only ever (re)bound to the counts of one trajectory, '
+               'so the MI is computed from the last trajectory alone instead of the pooled counts' % POOL)
+    cc = [c for c in calls_in(fm) if (call_name(c) or '').split('.')[-1] == 'channel_capacity_normalization']
+    if len(cc) != 1 or len(cc[0].args) != 3 or cc[0].keywords:
+        ck.missing(rule_p, 'one call channel_capacity_normalization(mi, n_x, n_y) in mi_matrix')
+        return
+    cst = fim.stmt(cc[0])
+    a0 = cc[0].args[0]
+    from_mi = isinstance(a0, ast.Name) and fim.resolve(a0) is mic[0]
+    got = [u(x) for x in cc[0].args[1:]]
+    if not from_mi:
+        ck.missing(rule_p, 'first argument of %s is not the result of mutual_information' % u(cc[0]))
+    else:
+        stable = all(fim.rd.defs_at(cst, p) == {'PARAM'} for p in (MX, MY))
+        ck.check(got == [MX, MY] and stable, rule_p, mod, cc[0], G, u(cc[0]), 'normalised with (mi, n_x, n_y)',
+                 'channel_capacity_normalization(mi, %s, %s) expected: the state counts of the first side go with axis 0 of mi' % (MX, MY))
+
+
+# ---------------------------------------------------------------------------
+# D7 entropy
+
+def _unwrap_where(idx):
+    """np.where(m) / np.nonzero(m) / m.nonzero() -> m."""
+    if isinstance(idx, ast.Call):
+        cn = call_name(idx) or ''
+        if cn in ('np.where', 'np.nonzero', 'numpy.where', 'numpy.nonzero') and len(idx.args) == 1 and not idx.keywords:
+            return idx.args[0]
+        if isinstance(idx.func, ast.Attribute) and idx.func.attr == 'nonzero' and not idx.args:
+            return idx.func.value
+    return idx
 
 
 def d7_entropy(ck):
     rule = 'C18.D7.entropy'
     mod = ck.repo.mod(EN)
-    fn = mod.func('kl_divergence')
+    F = 'kl_divergence'
+    fn = mod.func(F)
     ck.analysed(mod, fn)
-    ss = [s for s in assigns_to(fn, 'log_likelihoods') if isinstance(s, ast.Assign)]
-    ok = len(ss) == 1 and u(ss[0].value) == 'P * np.log(P / Q)'
-    ck.check(ok, rule, mod, ss[0] if ss else fn, 'kl_divergence', u(ss[0]) if ss else 'P*log(P/Q)',
-             'p log(p/q)', 'relative entropy term must be P * np.log(P / Q)')
-    st = [s for s, t in subscript_stores(fn, 'log_likelihoods')]
-    ok = len(st) == 1 and 'np.isnan(log_likelihoods)' in u(st[0]) and u(st[0].value) == '0'
-    ck.check(ok, rule, mod, st[0] if st else fn, 'kl_divergence', u(st[0]) if st else 'nan->0',
-             '0 log 0 = 0', 'undefined 0 log 0 cells must be set to zero')
-    fs = mod.func('shannon_entropy')
+    fi = _fi(mod, fn)
+    if len(params(fn)) < 2:
+        ck.missing(rule, 'signature (P, Q) of kl_divergence')
+    else:
+        P, Q = params(fn)[:2]
+        forms = ['%s * np.log(%s / %s)' % (P, P, Q), 'np.log(%s / %s) * %s' % (P, Q, P)]
+        # the term array: the one whose cells are reset to 0 / that is defined as p log(p/q)
+        zero = [(s, t) for s, t in subscript_stores(fn) if isinstance(s, ast.Assign) and isinstance(t.value, ast.Name)
+                and const_value(fi.expand(s.value)) == 0 and not isinstance(const_value(fi.expand(s.value)), bool)]
+        terms = [s for s in walk_local(fn) if isinstance(s, ast.Assign) and len(s.targets) == 1 and isinstance(s.targets[0], ast.Name)
+                 and classify(fi.expand(s.value, stop=(P, Q)), forms)[0] == 'match']
+        names = {t.value.id for s, t in zero} | {s.targets[0].id for s in terms}
+        if len(names) != 1:
+            ck.missing(rule, 'the array of p log(p/q) terms of kl_divergence (candidates: %s)' % (sorted(names) or 'none'))
+        else:
+            L = next(iter(names))
+            ldefs = [s for s in walk_local(fn) if isinstance(s, ast.Assign) and any(isinstance(t, ast.Name) and t.id == L for t in s.targets)]
+            if len(ldefs) != 1:
+                ck.missing(rule, 'one definition of the term array `%s`' % L)
+            else:
+                v = classify(fi.expand(ldefs[0].value, stop=(P, Q)), forms, scope={P, Q})
+                ck.decide(v, rule, mod, ldefs[0], F, u(ldefs[0]), 'p log(p/q)', 'relative entropy term must be %s * np.log(%s / %s)' % (P, P, Q))
+            mine = [(s, t) for s, t in zero if t.value.id == L]
+            if not mine:
+                masked = [c for c in calls_in(fn) if (kwarg(c, 'where') is not None or (call_name(c) == 'np.where' and len(c.args) == 3)
+                                                      or call_name(c) in ('np.nan_to_num', 'np.nansum', 'scipy.special.xlogy', 'scipy.special.rel_entr'))
+                          and ({L, P, Q} & {x.id for x in ast.walk(c) if isinstance(x, ast.Name)})]
+                if masked:
+                    ck.missing(rule, 'treatment of the undefined 0 log 0 cells of `%s` not recognised' % L)
+                else:
+                    ck.bad(rule, mod, ldefs[0] if ldefs else fn, F, 'nan->0', 'undefined 0 log 0 cells must be set to zero: '
+                           'no store `%s[isnan(%s)] = 0` found, the divergence is NaN whenever P has a zero' % (L, L))
+            for s, t in mine:
+                m = _unwrap_where(canon(fi.expand(t.slice)))
+                v = classify(m, ['np.isnan(%s)' % L, '%s != %s' % (L, L)], scope={L})
+                ck.decide(v, rule, mod, s, F, '%s[%s] = 0' % (L, _cx(m)), '0 log 0 = 0: exactly the NaN cells are zeroed',
+                          'exactly the undefined (NaN) 0 log 0 cells must be set to zero; a wider mask also drops the +inf of '
+                          'cells with P > 0 and Q == 0 (the divergence must be infinite there), a narrower one leaves NaN')
+                sums = [c for c in calls_in(fn) if isinstance(c.func, ast.Attribute) and c.func.attr == 'sum'
+                        and isinstance(c.func.value, ast.Name) and c.func.value.id == L]
+                if not sums:
+                    ck.missing(rule, 'summation of the term array `%s`' % L)
+                else:
+                    ck.check(all(fi.cfg.dominates(s, fi.stmt(c)) for c in sums), rule, mod, s, F, '%s before %s' % (u(s)[:80], u(sums[0])),
+                             'cells are zeroed before the terms are summed', 'the undefined cells must be zeroed BEFORE the terms are summed')
+    F = 'shannon_entropy'
+    fs = mod.func(F)
     ck.analysed(mod, fs)
-    hs = [s for s in assigns_to(fs, 'H') if isinstance(s, ast.Assign)]
-    ok = len(hs) == 1 and (u(hs[0].value).startswith('-np.sum(p * np.log(p') or u(hs[0].value).startswith('-(p * np.log(p'))
-    ck.check(ok, rule, mod, hs[0] if hs else fs, 'shannon_entropy', u(hs[0])[:100] if hs else 'H',
-             '-sum p log p', 'entropy must be -sum(p * log p)')
+    fis = _fi(mod, fs)
+    rstm = [r for r in returns_of(fs) if r.value is not None]
+    rets = [r.value for r in rstm]
+    if len(rets) != 1 or not params(fs):
+        ck.missing(rule, 'shannon_entropy returns one value')
+        return
+    p = params(fs)[0]
+    val = _xp(fis, rets[0], rstm[0], stop=(p,))
+    pats = []
+    for mask in ('0 < %s' % p, '%s != 0' % p):
+        pats += ['-(%s * np.log(%s, where=%s, out=_O)).sum()' % (p, p, mask), '-(np.log(%s, where=%s, out=_O) * %s).sum()' % (p, mask, p),
+                 '-1 * (%s * np.log(%s, where=%s, out=_O)).sum()' % (p, p, mask), '(-%s * np.log(%s, where=%s, out=_O)).sum()' % (p, p, mask)]
+    v = classify(val, pats, scope={p})
+    ck.decide(v, rule, mod, rets[0], F, _cx(val)[:160], '-sum p log p with log p taken where p > 0',
+              'entropy must be -sum(p * log p) with the log evaluated only where p > 0 (0 log 0 = 0)')
 
 
 def check(ck):
